@@ -8,8 +8,8 @@
 (***************************************************************************)
 EXTENDS HttpWireMC, Json, IOUtils
 
-\* single-entry cases first, then the multi-entry files
-CaseSeq == SetToSeq(Cases) \o SetToSeq(Files)
+\* single-entry cases first, then the multi-entry files, then the re-used small files
+CaseSeq == SetToSeq(Cases) \o SetToSeq(Files) \o SetToSeq(ReuseFiles)
 ASSUME /\ ndJsonSerialize(IOEnv.VERIF_OUT, [i \in 1..Len(CaseSeq) |-> [id |-> i, c |-> CaseSeq[i]]])
        /\ PrintT(<<"VERIF", "cases", Len(CaseSeq)>>)
 \* TLC wants a behaviour specification: one dummy state
